@@ -126,56 +126,59 @@ Print Assumptions defaults_match_source.
 (** The hash depends only on the class (salt, field list) and the keyed values of the
     hash-participating fields: instances that agree on those hash equal, whatever the
     other fields hold. *)
-Theorem hash_frame : forall (val : Type) (key : keyid -> val -> val) (eh : Type) (ehash : val -> eh)
+Theorem hash_frame : forall (val : Type) (key : keyid -> val -> val) (ts : ktests) (eh : Type) (ehash : val -> eh)
   (hres : Type) (H : Z -> list eh -> hres) (c : cls) (xs ys : list val),
-  agree val key (flds c) xs ys ->
-  compute val key eh ehash hres H c xs = compute val key eh ehash hres H c ys.
+  agree val key ts (flds c) xs ys ->
+  compute val key ts eh ehash hres H c xs = compute val key ts eh ehash hres H c ys.
 Proof. exact hash_frame_l. Qed.
 Print Assumptions hash_frame.
 
 (** Equal instances have equal hashes: generated __eq__ truthy (exact same class, all
     eq fields' keyed values ==) implies equal generated hashes, when every hash field
-    is an eq field and the field values' own == / hash are consistent. *)
-Theorem hash_eq_contract : forall (val : Type) (key : keyid -> val -> val) (eh : Type)
+    is an eq field, the field values' own == / hash are consistent, and __eq__ and
+    __hash__ decide in the same way whether a field has a key ([tests_consistent];
+    [source_key_tests_consistent] below discharges it for the source of this run). *)
+Theorem hash_eq_contract : forall (val : Type) (key : keyid -> val -> val) (ts : ktests) (eh : Type)
   (ehash : val -> eh) (hres : Type) (H : Z -> list eh -> hres) (py_eq : val -> val -> bool),
   (forall a b : val, py_eq a b = true -> ehash a = ehash b) ->
+  tests_consistent ts = true ->
   forall x y : obj val hres,
   (cid (o_cls val hres x) = cid (o_cls val hres y) -> o_cls val hres x = o_cls val hres y) ->
   hash_within_eq (o_cls val hres x) = true ->
   length (vals (o_inst val hres x)) = length (vals (o_inst val hres y)) ->
-  gen_eq val key hres py_eq x y = Some true ->
-  compute val key eh ehash hres H (o_cls val hres x) (vals (o_inst val hres x)) =
-  compute val key eh ehash hres H (o_cls val hres y) (vals (o_inst val hres y)).
+  gen_eq val key ts hres py_eq x y = Some true ->
+  compute val key ts eh ehash hres H (o_cls val hres x) (vals (o_inst val hres x)) =
+  compute val key ts eh ehash hres H (o_cls val hres y) (vals (o_inst val hres y)).
 Proof. exact hash_eq_contract_l. Qed.
 Print Assumptions hash_eq_contract.
 
 (** Stable across calls. *)
-Theorem hash_stable : forall (val : Type) (key : keyid -> val -> val) (eh : Type) (ehash : val -> eh)
+Theorem hash_stable : forall (val : Type) (key : keyid -> val -> val) (ts : ktests) (eh : Type) (ehash : val -> eh)
   (hres : Type) (H : Z -> list eh -> hres) (c : cls) (i : inst val hres) (h : hres)
   (i' : inst val hres) (comp : bool),
-  do_hash val key eh ehash hres H c i = Some (h, i', comp) ->
-  exists comp' : bool, do_hash val key eh ehash hres H c i' = Some (h, i', comp').
+  do_hash val key ts eh ehash hres H c i = Some (h, i', comp) ->
+  exists comp' : bool, do_hash val key ts eh ehash hres H c i' = Some (h, i', comp').
 Proof. exact hash_stable_l. Qed.
 Print Assumptions hash_stable.
 
 (** With cache_hash, over any interleaving of hash() calls and field assignments on a
     freshly constructed instance, the hash is computed exactly once (if hash() is
     called at all). *)
-Theorem cache_once : forall (val : Type) (key : keyid -> val -> val) (eh : Type) (ehash : val -> eh)
+Theorem cache_once : forall (val : Type) (key : keyid -> val -> val) (ts : ktests) (eh : Type) (ehash : val -> eh)
   (hres : Type) (H : Z -> list eh -> hres) (c : cls) (ops : list (op val)) (vs : list val),
   cache c = true -> forallb (hash_or_set val) ops = true ->
-  computations hres (run val key eh ehash hres H c (init val hres c vs) ops)
+  computations hres (run val key ts eh ehash hres H c (init val hres c vs) ops)
   = if existsb (fun o => negb (is_set val o)) ops then 1 else 0.
 Proof. exact cache_once_init_l. Qed.
 Print Assumptions cache_once.
 
 (** n >= 1 consecutive calls: the first computes, all return the uncached value. *)
-Theorem cache_once_repeat : forall (val : Type) (key : keyid -> val -> val) (eh : Type)
+Theorem cache_once_repeat : forall (val : Type) (key : keyid -> val -> val) (ts : ktests) (eh : Type)
   (ehash : val -> eh) (hres : Type) (H : Z -> list eh -> hres) (c : cls) (n : nat) (vs : list val),
   cache c = true ->
-  run val key eh ehash hres H c (init val hres c vs) (repeat OHash (S n)) =
-  MHashed (compute val key eh ehash hres H c vs) true
-  :: repeat (MHashed (compute val key eh ehash hres H c vs) false) n.
+  run val key ts eh ehash hres H c (init val hres c vs) (repeat OHash (S n)) =
+  MHashed (compute val key ts eh ehash hres H c vs) true
+  :: repeat (MHashed (compute val key ts eh ehash hres H c vs) false) n.
 Proof. exact cache_once_repeat_l. Qed.
 Print Assumptions cache_once_repeat.
 
@@ -183,29 +186,29 @@ Print Assumptions cache_once_repeat.
     operations WITHOUT field assignment, every hash() returns the uncached hash of the
     current field values (cached or not).  (After an assignment the cached value is
     stale by design: [Proofs.cache_stale_after_set].) *)
-Theorem cached_equals_uncached : forall (val : Type) (key : keyid -> val -> val) (eh : Type)
+Theorem cached_equals_uncached : forall (val : Type) (key : keyid -> val -> val) (ts : ktests) (eh : Type)
   (ehash : val -> eh) (hres : Type) (H : Z -> list eh -> hres) (c : cls) (ops : list (op val))
   (vs : list val),
   forallb (fun o => negb (is_set val o)) ops = true ->
-  hashes_uncached val key eh ehash hres H c (init val hres c vs) ops.
+  hashes_uncached val key ts eh ehash hres H c (init val hres c vs) ops.
 Proof. exact cached_equals_uncached_init_l. Qed.
 Print Assumptions cached_equals_uncached.
 
 (** Instance level "never raises": on an instance built by the class's OWN generated
     __init__ (and everything derived from it by the history operations) the generated
     __hash__ always returns. *)
-Theorem hash_total : forall (val : Type) (key : keyid -> val -> val) (eh : Type) (ehash : val -> eh)
+Theorem hash_total : forall (val : Type) (key : keyid -> val -> val) (ts : ktests) (eh : Type) (ehash : val -> eh)
   (hres : Type) (H : Z -> list eh -> hres) (c : cls) (ops : list (op val)) (vs : list val),
-  hash_returns val key eh ehash hres H c (init val hres c vs) ops.
+  hash_returns val key ts eh ehash hres H c (init val hres c vs) ops.
 Proof. exact hash_total_init_l. Qed.
 Print Assumptions hash_total.
 
 (** K1: the guard is needed — the caching __hash__ of a base applied to an instance
     built by a non-caching subclass's __init__ raises. *)
-Theorem hash_total_inherited_refuted : forall (val : Type) (key : keyid -> val -> val) (eh : Type)
+Theorem hash_total_inherited_refuted : forall (val : Type) (key : keyid -> val -> val) (ts : ktests) (eh : Type)
   (ehash : val -> eh) (hres : Type) (H : Z -> list eh -> hres) (base sub : cls) (vs : list val),
   cache base = true -> cache sub = false ->
-  do_hash val key eh ehash hres H base (init val hres sub vs) = None.
+  do_hash val key ts eh ehash hres H base (init val hres sub vs) = None.
 Proof. exact inherited_caching_hash_refuted_l. Qed.
 Print Assumptions hash_total_inherited_refuted.
 
@@ -213,17 +216,42 @@ Print Assumptions hash_total_inherited_refuted.
     under every hash oracle. *)
 Theorem free_complete : forall (eh hres : Type) (ehash : nat -> eh) (H : Z -> list eh -> hres) c xs ys,
   fcompute c xs = fcompute c ys ->
-  compute nat fkey eh ehash hres H c xs = compute nat fkey eh ehash hres H c ys.
+  compute nat fkey fts eh ehash hres H c xs = compute nat fkey fts eh ehash hres H c ys.
 Proof. exact free_complete_l. Qed.
 Print Assumptions free_complete.
 
 (** The script term the generator is compared with (script-level tie, [Corr.script_case_ok])
     denotes the model's computation: its elements evaluate to the tuple elements [compute]
     hashes, the wrapper argument and a caching store appear iff the class caches. *)
-Theorem script_denotes : forall (val : Type) (key : keyid -> val -> val) (dv : val) (c : cls)
+Theorem script_denotes : forall (val : Type) (key : keyid -> val -> val) (ts : ktests) (dv : val) (c : cls)
   (vs : list val), length (flds c) = length vs ->
-  map (eval_elem val key dv (flds c) vs) (hs_elems (make_hash_script c)) = hash_elems val key (flds c) vs
-  /\ hs_wrapper_arg (make_hash_script c) = cache c
-  /\ (hs_store (make_hash_script c) = StReturn <-> cache c = false).
+  map (eval_elem val key ts dv (flds c) vs) (hs_elems (make_hash_script ts c)) = hash_elems val key ts (flds c) vs
+  /\ hs_wrapper_arg (make_hash_script ts c) = cache c
+  /\ (hs_store (make_hash_script ts c) = StReturn <-> cache c = false).
 Proof. exact script_denotes_l. Qed.
 Print Assumptions script_denotes.
+
+(** ** B.0 key presence: truthiness vs [is not None] *)
+
+(** The three sites read from the source of this run ([Attribute.__init__]'s [eq_key or eq],
+    [if a.eq_key:] in [_make_eq_script] and in [_make_hash_script]) decide consistently. *)
+Theorem source_key_tests_consistent : tests_consistent Gen.C04_consts.src_key_tests = true.
+Proof. exact source_key_tests_consistent_l. Qed.
+Print Assumptions source_key_tests_consistent.
+
+(** Consistent tests: the key [__eq__] applies is the key [__hash__] applies, for every field
+    (also for falsy key callables). *)
+Theorem keys_agree : forall ts, tests_consistent ts = true -> forall f, f_key_eq ts f = f_key ts f.
+Proof. exact keys_agree_l. Qed.
+Print Assumptions keys_agree.
+
+(** ... and the consistency hypothesis is needed: with the attribute and [__eq__] testing
+    [is not None] and [__hash__] testing truthiness, a falsy key makes equal instances hash
+    differently. *)
+Theorem inconsistent_tests_break_contract :
+  tests_consistent seed_tests = false /\
+  let fs := [F None (EqK K0f)] in
+  eq_fields nat fkey seed_tests Nat.eqb fs [0] [2] = true /\
+  hash_elems nat fkey seed_tests fs [0] <> hash_elems nat fkey seed_tests fs [2].
+Proof. exact inconsistent_tests_break_contract_l. Qed.
+Print Assumptions inconsistent_tests_break_contract.
